@@ -35,9 +35,19 @@ type itr struct {
 	structs map[string]bool // struct types translated in this module
 	opaque  map[string]bool // struct types kept opaque (fields no translated method touches)
 	maskNS  string          // namespace of the regenerated Mask methods
+	ns      string          // namespace of this module
 	externs map[string]string // "T.m" of methods kept uninterpreted -> Lean type of the function parameter
 	needExt map[string][]string // translated function -> extern parameters it takes
 	extOwner map[string]string  // extern parameter name -> "T.m"
+	tokens   map[string]bool    // struct types outside the module whose values only occur behind pointers: *T is a token
+	fieldExt map[string]string  // "T.field" of function-typed fields kept uninterpreted -> extern parameter name
+	tokExt   map[string]string  // "T.member" of token objects (fields / methods read through a pointer) -> extern parameter name
+	ifaceExt map[string]string  // interface method name -> extern parameter name (uninterpreted, first argument the value)
+	alias    map[string]ast.Expr // e := &<lvalue>: e stands for the lvalue
+	loopVar  string             // inside a loop body: the state variable the body function returns
+	inout    map[string][]int   // translated function -> indices of pointer parameters returned as results
+	retExtra []string           // names of the in-out parameters of the function being translated
+	relVar   map[string]string  // rf (from rf, ok := f.(*RelationFilter)) -> variable holding the optional target
 }
 
 func (t *itr) fail(format string, a ...interface{}) string {
@@ -50,16 +60,36 @@ func (t *itr) tmp(prefix string) string {
 	return fmt.Sprintf("%s%d", prefix, t.fresh)
 }
 
+// numericParam: a type parameter constrained by `number` (pool.go) is instantiated with uint32,
+// its only instantiation in the library (intPool[uint32], the filter ids of the cache)
+func numericParam(tp types.Type) bool {
+	p, ok := tp.(*types.TypeParam)
+	if !ok {
+		return false
+	}
+	if n, ok := p.Constraint().(*types.Named); ok && n.Obj().Name() == "number" {
+		return true
+	}
+	return false
+}
+
+func resolve(tp types.Type) types.Type {
+	if numericParam(tp) {
+		return types.Typ[types.Uint32]
+	}
+	return tp
+}
+
 func (t *itr) typeOf(e ast.Expr) types.Type {
 	if tv, ok := t.p.info.Types[e]; ok {
-		return tv.Type
+		return resolve(tv.Type)
 	}
 	if id, ok := e.(*ast.Ident); ok {
 		if o := t.p.info.Uses[id]; o != nil {
-			return o.Type()
+			return resolve(o.Type())
 		}
 		if o := t.p.info.Defs[id]; o != nil {
-			return o.Type()
+			return resolve(o.Type())
 		}
 	}
 	return types.Typ[types.Invalid]
@@ -77,12 +107,17 @@ func (t *itr) leanType(tp types.Type) string {
 			return "BitVec 32"
 		case types.Uint64:
 			return "BitVec 64"
+		case types.Int32:
+			return "BitVec 32" // signed: only conversions and indexing are translated
 		case types.Int, types.UntypedInt:
 			return "Int"
 		case types.Bool, types.UntypedBool:
 			return "Bool"
 		}
 	case *types.TypeParam:
+		if numericParam(u) {
+			return "BitVec 32"
+		}
 		return u.Obj().Name()
 	case *types.Interface:
 		return "GoAny"
@@ -97,11 +132,28 @@ func (t *itr) leanType(tp types.Type) string {
 		if t.opaque[n] {
 			return "Unit" // a field no translated method touches
 		}
+		if t.tokens[n] {
+			return "Nat" // an object identified by a token; only pointers to it occur
+		}
 		if t.structs[n] {
+			if st, ok := u.Underlying().(*types.Struct); ok {
+				for i := 0; i < st.NumFields(); i++ {
+					if st.Field(i).Name() == n {
+						n = "_root_." + t.ns + "." + n // a field of the same name would shadow the type inside its own namespace
+						break
+					}
+				}
+			}
 			if ta := u.TypeArgs(); ta != nil && ta.Len() > 0 {
 				args := []string{}
 				for i := 0; i < ta.Len(); i++ {
+					if numericParam(ta.At(i)) || numericParam(u.Origin().TypeParams().At(i)) {
+						continue
+					}
 					args = append(args, paren(t.leanType(ta.At(i))))
+				}
+				if len(args) == 0 {
+					return n
 				}
 				return "(" + n + " " + strings.Join(args, " ") + ")"
 			}
@@ -111,7 +163,15 @@ func (t *itr) leanType(tp types.Type) string {
 			return t.fail("struct type %s is not part of this module", n)
 		}
 		return t.leanType(u.Underlying())
+	case *types.Signature:
+		return "Unit" // a function-typed field: its calls are uninterpreted function parameters
 	case *types.Pointer:
+		if n, ok := u.Elem().(*types.Named); ok && t.tokens[n.Obj().Name()] {
+			return "Option Nat" // nil or a pointer to an object outside the module
+		}
+		if _, ok := u.Elem().(*types.TypeParam); ok && !numericParam(u.Elem()) {
+			return "Option " + u.Elem().(*types.TypeParam).Obj().Name() // *T: nil or an element
+		}
 		return t.leanType(u.Elem())
 	case *types.Map:
 		return "GoMap (" + t.leanType(u.Key()) + ") (" + t.leanType(u.Elem()) + ")"
@@ -128,7 +188,7 @@ func (t *itr) constOf(e ast.Expr) (string, bool) {
 	if !ok || tv.Value == nil {
 		return "", false
 	}
-	tp := tv.Type
+	tp := resolve(tv.Type)
 	if b, ok := tp.Underlying().(*types.Basic); ok && (b.Kind() == types.Bool || b.Kind() == types.UntypedBool) {
 		if constant.BoolVal(tv.Value) {
 			return "true", true
@@ -137,6 +197,9 @@ func (t *itr) constOf(e ast.Expr) (string, bool) {
 	}
 	if w, ok := isBV(tp); ok {
 		return fmt.Sprintf("%s#%d", tv.Value.ExactString(), w), true
+	}
+	if b, ok := tp.Underlying().(*types.Basic); ok && b.Kind() == types.Int32 && constant.Sign(tv.Value) >= 0 {
+		return fmt.Sprintf("%s#32", tv.Value.ExactString()), true
 	}
 	if isInt(tp) {
 		return fmt.Sprintf("(%s : Int)", tv.Value.ExactString()), true
@@ -151,6 +214,11 @@ func (t *itr) natOf(e ast.Expr, pre *[]string) string {
 	if _, ok := isBV(tp); ok {
 		return "(" + v + ").toNat"
 	}
+	if b, ok := tp.Underlying().(*types.Basic); ok && b.Kind() == types.Int32 {
+		n := t.tmp("n")
+		*pre = append(*pre, fmt.Sprintf("let %s ← GoInt.toIndex (%s).toInt", n, v))
+		return n
+	}
 	if isInt(tp) {
 		// a negative index panics
 		n := t.tmp("n")
@@ -158,6 +226,17 @@ func (t *itr) natOf(e ast.Expr, pre *[]string) string {
 		return n
 	}
 	return t.fail("unsupported index type %s", tp)
+}
+
+// tokenOf: the type is (a pointer to) a struct outside the module that is handled as a token
+func (t *itr) tokenOf(tp types.Type) (string, bool) {
+	if p, ok := tp.(*types.Pointer); ok {
+		tp = p.Elem()
+	}
+	if n, ok := tp.(*types.Named); ok && t.tokens[n.Obj().Name()] {
+		return n.Obj().Name(), true
+	}
+	return "", false
 }
 
 func isSliceT(tp types.Type) bool { _, ok := tp.Underlying().(*types.Slice); return ok }
@@ -195,10 +274,13 @@ func (t *itr) expr(e ast.Expr, pre *[]string) string {
 		if x.Name == "true" || x.Name == "false" {
 			return x.Name
 		}
+		if a, ok := t.alias[x.Name]; ok {
+			return t.expr(a, pre)
+		}
 		if x.Name == "nil" {
 			if tv, ok := t.p.info.Types[x]; ok && tv.Type != nil {
-				if isSliceT(tv.Type) {
-					return "(default : " + t.leanType(tv.Type) + ")" // the nil slice
+				if isSliceT(tv.Type) || isMapT(tv.Type) {
+					return "(default : " + t.leanType(tv.Type) + ")" // the nil slice / map
 				}
 			}
 			return "none"
@@ -207,6 +289,15 @@ func (t *itr) expr(e ast.Expr, pre *[]string) string {
 	case *ast.SelectorExpr:
 		if n, ok := t.typeOf(x.X).(*types.Named); ok && (n.Obj().Name() == "ID" || n.Obj().Name() == "ResID") && x.Sel.Name == "id" {
 			return t.expr(x.X, pre) // ID{id} / ResID{id} are their id
+		}
+		if id, ok := x.X.(*ast.Ident); ok && t.relVar[id.Name] != "" && x.Sel.Name == "Target" {
+			return "((" + t.relVar[id.Name] + ").getD default)"
+		}
+		if tn, ok := t.tokenOf(t.typeOf(x.X)); ok {
+			if ext, ok := t.tokExt[tn+"."+x.Sel.Name]; ok {
+				return fmt.Sprintf("(%s %s)", ext, t.expr(x.X, pre))
+			}
+			return t.fail("member %s of an object outside the module", tn+"."+x.Sel.Name)
 		}
 		return "(" + t.expr(x.X, pre) + ")." + x.Sel.Name
 	case *ast.IndexExpr:
@@ -221,6 +312,9 @@ func (t *itr) expr(e ast.Expr, pre *[]string) string {
 	case *ast.UnaryExpr:
 		if x.Op == token.NOT {
 			return "(!" + t.expr(x.X, pre) + ")"
+		}
+		if x.Op == token.AND {
+			return t.expr(x.X, pre) // &v passed to a callee that only reads it
 		}
 		if x.Op == token.XOR {
 			if _, ok := isBV(t.typeOf(x.X)); ok {
@@ -242,6 +336,12 @@ func (t *itr) expr(e ast.Expr, pre *[]string) string {
 				}
 				return "(!(GoSlice.isNil " + t.expr(x.X, pre) + "))"
 			}
+			if isMapT(t.typeOf(x.X)) {
+				if x.Op == token.EQL {
+					return "(GoMap.isNil " + t.expr(x.X, pre) + ")"
+				}
+				return "(!(GoMap.isNil " + t.expr(x.X, pre) + "))"
+			}
 			return t.fail("comparison of a non-interface value with nil")
 		}
 		a, b := t.expr(x.X, pre), t.expr(x.Y, pre)
@@ -259,6 +359,9 @@ func (t *itr) expr(e ast.Expr, pre *[]string) string {
 			return fmt.Sprintf("(%s || %s)", a, b)
 		case token.ADD, token.SUB, token.MUL:
 			op := map[token.Token]string{token.ADD: "+", token.SUB: "-", token.MUL: "*"}[x.Op]
+			if b32, ok := tp.Underlying().(*types.Basic); ok && b32.Kind() == types.Int32 && x.Op != token.MUL {
+				return fmt.Sprintf("(%s %s %s)", a, op, b) // int32 as BitVec 32 (two's complement, wraps like Go)
+			}
 			if bv || in {
 				return fmt.Sprintf("(%s %s %s)", a, op, b)
 			}
@@ -326,7 +429,10 @@ func (t *itr) expr(e ast.Expr, pre *[]string) string {
 			}
 			return t.expr(x.Elts[0], pre)
 		}
-		if (isSliceT(tp) || isMapT(tp)) && len(x.Elts) == 0 {
+		if isMapT(tp) && len(x.Elts) == 0 {
+			return fmt.Sprintf("(GoMap.empty : %s)", t.leanType(tp)) // an empty, non-nil map
+		}
+		if isSliceT(tp) && len(x.Elts) == 0 {
 			return fmt.Sprintf("(default : %s)", t.leanType(tp)) // empty (identified with nil)
 		}
 		st, ok := tp.Underlying().(*types.Struct)
@@ -342,7 +448,11 @@ func (t *itr) expr(e ast.Expr, pre *[]string) string {
 			if kv, ok := el.(*ast.KeyValueExpr); ok {
 				n := kv.Key.(*ast.Ident).Name
 				seen[n] = true
-				fields = append(fields, fmt.Sprintf("%s := %s", n, t.expr(kv.Value, pre)))
+				if id, ok := kv.Value.(*ast.Ident); ok && id.Name == "nil" {
+					fields = append(fields, fmt.Sprintf("%s := default", n)) // nil slice / map / interface / pointer
+				} else {
+					fields = append(fields, fmt.Sprintf("%s := %s", n, t.expr(kv.Value, pre)))
+				}
 			} else {
 				n := st.Field(i).Name()
 				seen[n] = true
@@ -377,6 +487,17 @@ func (t *itr) conv(to types.Type, arg ast.Expr, pre *[]string) string {
 	if n, ok := to.(*types.Named); ok && n.Obj().Name() == "ID" {
 		return v
 	}
+	isI32 := func(tp types.Type) bool {
+		b, ok := tp.Underlying().(*types.Basic)
+		return ok && b.Kind() == types.Int32
+	}
+	if isI32(to) && isInt(from) {
+		return fmt.Sprintf("(BitVec.ofInt 32 %s)", v)
+	}
+	if isInt(to) && isI32(from) {
+		return fmt.Sprintf("((%s).toInt)", v)
+	}
+	to = resolve(to)
 	wt, tbv := isBV(to)
 	wf, fbv := isBV(from)
 	switch {
@@ -455,12 +576,41 @@ func (t *itr) call(x *ast.CallExpr, pre *[]string, wantValue bool) string {
 	if !ok {
 		return t.fail("unsupported call %s", types.ExprString(x.Fun))
 	}
+	// call of a function-typed field kept uninterpreted
+	if selInfo, ok := t.p.info.Selections[sel]; ok && selInfo.Kind() == types.FieldVal {
+		rt := selInfo.Recv()
+		if p, ok := rt.(*types.Pointer); ok {
+			rt = p.Elem()
+		}
+		if nt, ok := rt.(*types.Named); ok {
+			if ext, ok := t.fieldExt[nt.Obj().Name()+"."+sel.Sel.Name]; ok {
+				args := []string{}
+				for _, a := range x.Args {
+					args = append(args, t.expr(a, pre))
+				}
+				return fmt.Sprintf("(%s %s)", ext, strings.Join(args, " "))
+			}
+		}
+		return t.fail("call of a function-typed field: %s", types.ExprString(x.Fun))
+	}
 	// method call on an lvalue path
 	recvTp := t.typeOf(sel.X)
 	if p, ok := recvTp.(*types.Pointer); ok {
 		recvTp = p.Elem()
 	}
 	named, ok := recvTp.(*types.Named)
+	if ok {
+		if _, isIface := named.Underlying().(*types.Interface); isIface {
+			if ext, ok := t.ifaceExt[sel.Sel.Name]; ok {
+				as := []string{t.expr(sel.X, pre)}
+				for _, a := range x.Args {
+					as = append(as, t.expr(a, pre))
+				}
+				return fmt.Sprintf("(%s %s)", ext, strings.Join(as, " "))
+			}
+			return t.fail("call of interface method %s", sel.Sel.Name)
+		}
+	}
 	if !ok {
 		return t.fail("unsupported method receiver %s", recvTp)
 	}
@@ -479,6 +629,9 @@ func (t *itr) call(x *ast.CallExpr, pre *[]string, wantValue bool) string {
 			return "()"
 		}
 		return callS
+	}
+	if ext, ok := t.tokExt[tn+"."+sel.Sel.Name]; ok && t.tokens[tn] {
+		return fmt.Sprintf("(%s %s)", ext, strings.Join(append([]string{recvVal}, args...), " "))
 	}
 	if _, isExt := t.externs[tn+"."+sel.Sel.Name]; isExt {
 		// an uninterpreted function of its arguments (not of the receiver's state)
@@ -500,6 +653,17 @@ func (t *itr) call(x *ast.CallExpr, pre *[]string, wantValue bool) string {
 	ptrRecv := false
 	if _, ok := fd.Recv.List[0].Type.(*ast.StarExpr); ok {
 		ptrRecv = true
+	}
+	if io := t.inout[tn+"."+sel.Sel.Name]; len(io) > 0 {
+		// pointer parameters the callee writes through come back as extra results
+		if !ptrRecv || hasRes || len(io) != 1 {
+			return t.fail("unsupported in-out call shape %s", tn+"."+sel.Sel.Name)
+		}
+		nr, pv := t.tmp("o"), t.tmp("p")
+		*pre = append(*pre, fmt.Sprintf("let (%s, %s) ← %s", nr, pv, callS))
+		*pre = append(*pre, t.assignPath(sel.X, nr, nil)...)
+		*pre = append(*pre, t.assignPath(x.Args[io[0]], pv, nil)...)
+		return "()"
 	}
 	switch {
 	case ptrRecv && hasRes:
@@ -537,7 +701,12 @@ type pathStep struct {
 func (t *itr) lvalue(e ast.Expr) (root string, steps []pathStep, ok bool) {
 	switch x := e.(type) {
 	case *ast.Ident:
+		if a, ok := t.alias[x.Name]; ok {
+			return t.lvalue(a)
+		}
 		return x.Name, nil, true
+	case *ast.StarExpr:
+		return t.lvalue(x.X)
 	case *ast.ParenExpr:
 		return t.lvalue(x.X)
 	case *ast.SelectorExpr:
@@ -650,7 +819,77 @@ func terminal(list []ast.Stmt) bool {
 	return false
 }
 
+// writesThrough: does the body assign through one of these (pointer) parameters?
+func (t *itr) writesThrough(fd *ast.FuncDecl, names []*ast.Ident) bool {
+	set := map[string]bool{}
+	for _, n := range names {
+		set[n.Name] = true
+	}
+	found := false
+	ast.Inspect(fd.Body, func(n ast.Node) bool {
+		check := func(e ast.Expr) {
+			for {
+				switch x := e.(type) {
+				case *ast.SelectorExpr:
+					e = x.X
+					continue
+				case *ast.IndexExpr:
+					e = x.X
+					continue
+				case *ast.StarExpr:
+					e = x.X
+					continue
+				case *ast.Ident:
+					if set[x.Name] {
+						found = true
+					}
+				}
+				return
+			}
+		}
+		switch s := n.(type) {
+		case *ast.AssignStmt:
+			for _, l := range s.Lhs {
+				if _, isId := l.(*ast.Ident); !isId {
+					check(l)
+				}
+			}
+		case *ast.IncDecStmt:
+			check(s.X)
+		}
+		return true
+	})
+	return found
+}
+
+// stateTuple: the variables a loop body threads through (receiver and in-out parameters)
+func (t *itr) stateTuple() string {
+	vs := []string{}
+	if t.recv != "" {
+		vs = append(vs, t.recv)
+	}
+	vs = append(vs, t.retExtra...)
+	if len(vs) == 1 {
+		return vs[0]
+	}
+	return "(" + strings.Join(vs, ", ") + ")"
+}
+
 func (t *itr) ret(val string) string {
+	if t.loopVar != "" {
+		return "pure " + t.loopVar
+	}
+	if len(t.retExtra) > 0 {
+		vs := []string{}
+		if t.recv != "" {
+			vs = append(vs, t.recv)
+		}
+		vs = append(vs, t.retExtra...)
+		if val != "" {
+			vs = append(vs, val)
+		}
+		return "pure (" + strings.Join(vs, ", ") + ")"
+	}
 	switch {
 	case t.recv != "" && val != "":
 		return fmt.Sprintf("pure (%s, %s)", t.recv, val)
@@ -752,7 +991,37 @@ func (t *itr) stmts(list []ast.Stmt, ind string) []string {
 		if x.Tok != token.DEFINE && x.Tok != token.ASSIGN {
 			return append(out, ind+t.fail("unsupported assignment operator %s", x.Tok))
 		}
+		if len(x.Lhs) == 1 && len(x.Rhs) == 1 && x.Tok == token.DEFINE {
+			if u, ok := x.Rhs[0].(*ast.UnaryExpr); ok && u.Op == token.AND {
+				if id, ok := x.Lhs[0].(*ast.Ident); ok {
+					if _, _, isLv := t.lvalue(u.X); isLv {
+						// e := &<lvalue>: from here on e stands for the lvalue
+						if t.alias == nil {
+							t.alias = map[string]ast.Expr{}
+						}
+						t.alias[id.Name] = u.X
+						return append(out, t.stmts(rest, ind)...)
+					}
+				}
+			}
+		}
 		if len(x.Lhs) == 2 && len(x.Rhs) == 1 {
+			if ta, ok := x.Rhs[0].(*ast.TypeAssertExpr); ok && x.Tok == token.DEFINE && strings.TrimPrefix(types.ExprString(ta.Type), "*") == "RelationFilter" {
+				// rf, ok := f.(*RelationFilter): the target of a relation filter, if f is one
+				v := t.tmp("f")
+				pre = append(pre, fmt.Sprintf("let %s := relationTargetF %s", v, t.expr(ta.X, &pre)))
+				if id, ok := x.Lhs[0].(*ast.Ident); ok && id.Name != "_" {
+					if t.relVar == nil {
+						t.relVar = map[string]string{}
+					}
+					t.relVar[id.Name] = v
+				}
+				if id, ok := x.Lhs[1].(*ast.Ident); ok && id.Name != "_" {
+					pre = append(pre, fmt.Sprintf("let %s := (%s).isSome", id.Name, v))
+				}
+				emit(pre)
+				return append(out, t.stmts(rest, ind)...)
+			}
 			if ix, ok := x.Rhs[0].(*ast.IndexExpr); ok && isMapT(t.typeOf(ix.X)) && x.Tok == token.DEFINE {
 				// v, ok := m[k]
 				mv := t.expr(ix.X, &pre)
@@ -764,6 +1033,23 @@ func (t *itr) stmts(list []ast.Stmt, ind string) []string {
 				}
 				if id, ok := x.Lhs[1].(*ast.Ident); ok && id.Name != "_" {
 					pre = append(pre, fmt.Sprintf("let %s := (%s).isSome", id.Name, f))
+				}
+				emit(pre)
+				return append(out, t.stmts(rest, ind)...)
+			}
+			if ta, ok := x.Rhs[0].(*ast.TypeAssertExpr); ok && x.Tok == token.DEFINE {
+				// v, ok := x.(*T): only the flag is translated, as an uninterpreted predicate on the value
+				if id, isId := x.Lhs[0].(*ast.Ident); !isId || id.Name != "_" {
+					return append(out, ind+t.fail("the value of a type assertion is not supported"))
+				}
+				tn := types.ExprString(ta.Type)
+				tn = strings.TrimPrefix(tn, "*")
+				pred := "is" + tn + "F"
+				if _, known := t.extOwner[pred]; !known {
+					return append(out, ind+t.fail("type assertion to %s", tn))
+				}
+				if id, ok := x.Lhs[1].(*ast.Ident); ok && id.Name != "_" {
+					pre = append(pre, fmt.Sprintf("let %s := %s %s", id.Name, pred, t.expr(ta.X, &pre)))
 				}
 				emit(pre)
 				return append(out, t.stmts(rest, ind)...)
@@ -801,8 +1087,10 @@ func (t *itr) stmts(list []ast.Stmt, ind string) []string {
 		vals := make([]string, len(x.Rhs))
 		for i, r := range x.Rhs {
 			v := ""
-			if id, ok := r.(*ast.Ident); ok && id.Name == "nil" && isSliceT(t.typeOf(x.Lhs[i])) {
+			if id, ok := r.(*ast.Ident); ok && id.Name == "nil" && (isSliceT(t.typeOf(x.Lhs[i])) || isMapT(t.typeOf(x.Lhs[i]))) {
 				v = "(default : " + t.leanType(t.typeOf(x.Lhs[i])) + ")" // the nil slice
+			} else if ok && id.Name == "nil" {
+				v = "(none : " + t.leanType(t.typeOf(x.Lhs[i])) + ")"
 			} else {
 				v = t.expr(r, &pre)
 			}
@@ -826,6 +1114,11 @@ func (t *itr) stmts(list []ast.Stmt, ind string) []string {
 		}
 		emit(pre)
 		return append(out, t.stmts(rest, ind)...)
+	case *ast.BranchStmt:
+		if x.Tok == token.CONTINUE && t.loopVar != "" {
+			return append(out, ind+"pure "+t.loopVar)
+		}
+		return append(out, ind+t.fail("unsupported branch statement %s", x.Tok))
 	case *ast.RangeStmt:
 		// for i := range s { s[i] = c }   (every element set to one value)
 		if key, ok := x.Key.(*ast.Ident); ok && x.Value == nil && len(x.Body.List) == 1 {
@@ -847,6 +1140,9 @@ func (t *itr) stmts(list []ast.Stmt, ind string) []string {
 					}
 				}
 			}
+		}
+		if lines, ok := t.rangeLoop(x, rest, ind); ok {
+			return append(out, lines...)
 		}
 		return append(out, ind+t.fail("unsupported range loop"))
 	case *ast.IfStmt:
@@ -882,6 +1178,89 @@ func (t *itr) stmts(list []ast.Stmt, ind string) []string {
 		return out
 	}
 	return append(out, ind+t.fail("unsupported statement %T", s))
+}
+
+// rangeLoop: for i := range X { body } and for i, v := range X { body } over a slice, where the
+// body only changes the receiver (through paths) and its own locals. The loop becomes a monadic
+// fold over the indices 0..len(X)-1 (len evaluated once, as in Go); `continue` ends one step.
+func (t *itr) rangeLoop(x *ast.RangeStmt, rest []ast.Stmt, ind string) ([]string, bool) {
+	if t.recv == "" || t.loopVar != "" || x.Tok != token.DEFINE || !isSliceT(t.typeOf(x.X)) {
+		return nil, false
+	}
+	for _, e := range t.retExtra {
+		_ = e
+	}
+	key, ok := x.Key.(*ast.Ident)
+	if !ok {
+		return nil, false
+	}
+	// the body must not assign to variables declared outside it, other than through the receiver
+	declared := map[string]bool{key.Name: true}
+	if v, ok := x.Value.(*ast.Ident); ok {
+		declared[v.Name] = true
+	}
+	bad := false
+	ast.Inspect(x.Body, func(n ast.Node) bool {
+		switch s := n.(type) {
+		case *ast.AssignStmt:
+			for _, l := range s.Lhs {
+				if id, ok := l.(*ast.Ident); ok {
+					if s.Tok == token.DEFINE {
+						declared[id.Name] = true
+					} else if !declared[id.Name] && id.Name != "_" {
+						bad = true
+					}
+				}
+			}
+		case *ast.ReturnStmt:
+			bad = true
+		case *ast.BranchStmt:
+			if s.Tok != token.CONTINUE {
+				bad = true
+			}
+		case *ast.RangeStmt, *ast.ForStmt:
+			if n != ast.Node(x.Body) {
+				bad = true
+			}
+		}
+		return true
+	})
+	if bad {
+		return nil, false
+	}
+	out := []string{}
+	pre := []string{}
+	xs := t.expr(x.X, &pre)
+	for _, l := range pre {
+		out = append(out, ind+l)
+	}
+	n := t.tmp("n")
+	iN := key.Name + "N"
+	out = append(out, fmt.Sprintf("%slet %s := (%s).size", ind, n, xs))
+	st := t.stateTuple()
+	out = append(out, fmt.Sprintf("%slet %s ← (List.range %s).foldlM (fun %s %s => do", ind, st, n, st, iN))
+	bi := ind + "    "
+	out = append(out, fmt.Sprintf("%slet %s : Int := ((%s : Nat) : Int)", bi, key.Name, iN))
+	if v, ok := x.Value.(*ast.Ident); ok && v.Name != "_" {
+		pre2 := []string{}
+		xs2 := t.expr(x.X, &pre2)
+		for _, l := range pre2 {
+			out = append(out, bi+l)
+		}
+		out = append(out, fmt.Sprintf("%slet %s ← GoSlice.get %s %s", bi, v.Name, xs2, iN))
+	}
+	t.loopVar = st
+	savedAlias := t.alias
+	t.alias = map[string]ast.Expr{}
+	for k, v := range savedAlias {
+		t.alias[k] = v
+	}
+	out = append(out, t.stmts(x.Body.List, bi)...)
+	t.alias = savedAlias
+	t.loopVar = ""
+	out = append(out, fmt.Sprintf("%s  ) %s", ind, st))
+	out = append(out, t.stmts(rest, ind)...)
+	return out, true
 }
 
 // readPath reads the value at an lvalue using pre-evaluated indices
@@ -920,6 +1299,9 @@ func (t *itr) emitStruct(sb *strings.Builder, name string) {
 	tparams := ""
 	if nt, ok := o.Type().(*types.Named); ok && nt.TypeParams() != nil {
 		for i := 0; i < nt.TypeParams().Len(); i++ {
+			if numericParam(nt.TypeParams().At(i)) {
+				continue
+			}
 			tparams += fmt.Sprintf(" (%s : Type)", nt.TypeParams().At(i).Obj().Name())
 		}
 	}
@@ -928,11 +1310,7 @@ func (t *itr) emitStruct(sb *strings.Builder, name string) {
 		f := st.Field(i)
 		fmt.Fprintf(sb, "  %s : %s\n", f.Name(), t.leanType(f.Type()))
 	}
-	if tparams != "" {
-		fmt.Fprintf(sb, "deriving Repr, Inhabited\n\n")
-	} else {
-		fmt.Fprintf(sb, "deriving Repr, Inhabited, DecidableEq\n\n")
-	}
+	fmt.Fprintf(sb, "deriving Repr, Inhabited, DecidableEq\n\n")
 }
 
 func (t *itr) emitFunc(sb *strings.Builder, goName string) {
@@ -943,9 +1321,16 @@ func (t *itr) emitFunc(sb *strings.Builder, goName string) {
 	}
 	t.fresh = 0
 	t.recv, t.recvTp = "", ""
+	t.alias = nil
+	t.relVar = nil
+	t.retExtra = nil
+	extraT := []string{}
 	params := []string{}
 	addTP := func(tp *types.TypeParamList) {
 		for i := 0; tp != nil && i < tp.Len(); i++ {
+			if numericParam(tp.At(i)) {
+				continue
+			}
 			params = append(params, fmt.Sprintf("{%s : Type} [Inhabited %s]", tp.At(i).Obj().Name(), tp.At(i).Obj().Name()))
 		}
 	}
@@ -965,10 +1350,35 @@ func (t *itr) emitFunc(sb *strings.Builder, goName string) {
 		}
 		params = append(params, fmt.Sprintf("(%s : %s)", r.Names[0].Name, t.leanType(t.typeOf(r.Type))))
 	}
+	pi := 0
 	for _, f := range fd.Type.Params.List {
-		lt := t.leanType(t.typeOf(f.Type))
+		ptp := t.typeOf(f.Type)
+		lt := t.leanType(ptp)
+		isInOut := false
+		if pp, ok := ptp.(*types.Pointer); ok && fd.Recv != nil {
+			if nt, ok := pp.Elem().(*types.Named); ok && t.structs[nt.Obj().Name()] && t.writesThrough(fd, f.Names) {
+				isInOut = true
+			}
+		}
 		for _, n := range f.Names {
 			params = append(params, fmt.Sprintf("(%s : %s)", n.Name, lt))
+			if isInOut {
+				t.retExtra = append(t.retExtra, n.Name)
+				extraT = append(extraT, lt)
+				if t.inout == nil {
+					t.inout = map[string][]int{}
+				}
+				found := false
+				for _, k := range t.inout[goName] {
+					if k == pi {
+						found = true
+					}
+				}
+				if !found {
+					t.inout[goName] = append(t.inout[goName], pi)
+				}
+			}
+			pi++
 		}
 	}
 	resT := ""
@@ -989,6 +1399,16 @@ func (t *itr) emitFunc(sb *strings.Builder, goName string) {
 	}
 	ret := "Unit"
 	switch {
+	case len(extraT) > 0:
+		parts := []string{}
+		if t.recv != "" {
+			parts = append(parts, t.recvTp)
+		}
+		parts = append(parts, extraT...)
+		if resT != "" {
+			parts = append(parts, resT)
+		}
+		ret = "(" + strings.Join(parts, " × ") + ")"
 	case t.recv != "" && resT != "":
 		ret = fmt.Sprintf("(%s × %s)", t.recvTp, resT)
 	case t.recv != "":
@@ -1011,10 +1431,30 @@ func genPools(repo string, tiny bool) (string, []string) {
 	if tiny {
 		ns, mns, imp = "ArcheGen.P64", "ArcheGen.M64", "ArcheGen.Build64"
 	}
-	t := &itr{p: ecs, structs: map[string]bool{"Entity": true, "entityPool": true, "bitPool": true, "lockMask": true, "Resources": true, "bitSet": true, "idMap": true},
+	t := &itr{p: ecs, structs: map[string]bool{"Entity": true, "entityPool": true, "bitPool": true, "lockMask": true, "Resources": true, "bitSet": true, "idMap": true, "intPool": true, "pointers": true},
 		opaque: map[string]bool{"componentRegistry": true}, maskNS: mns}
-	t.externs = map[string]string{"componentRegistry.isRelation": "GoAny → Bool"}
-	t.extOwner = map[string]string{"isRelationF": "componentRegistry.isRelation"}
+	t.ns = ns
+	t.externs = map[string]string{"componentRegistry.isRelation": "GoAny → Bool", "Cache.getArchetypes": "GoAny → GoSlice (Option Nat)",
+		"assert.CachedFilter": "GoAny → Bool"}
+	t.extOwner = map[string]string{"isRelationF": "componentRegistry.isRelation", "getArchetypesF": "Cache.getArchetypes",
+		"isCachedFilterF": "assert.CachedFilter"}
+	t.fieldExt = map[string]string{"Cache.getArchetypes": "getArchetypesF"}
+	t.tokens = map[string]bool{"archetype": true}
+	t.tokExt = map[string]string{"archetype.Mask": "archMaskF", "archetype.RelationTarget": "archTargetF", "archetype.HasRelation": "archHasRelationF"}
+	t.ifaceExt = map[string]string{"Matches": "matchesF"}
+	t.externs["tok.Mask"] = "Option Nat → " + mns + ".Mask"
+	t.externs["tok.Target"] = "Option Nat → Entity"
+	t.externs["tok.HasRelation"] = "Option Nat → Bool"
+	t.externs["iface.Matches"] = "GoAny → " + mns + ".Mask → Bool"
+	t.externs["assert.RelationFilter"] = "GoAny → Option Entity"
+	t.extOwner["archMaskF"] = "tok.Mask"
+	t.extOwner["archTargetF"] = "tok.Target"
+	t.extOwner["archHasRelationF"] = "tok.HasRelation"
+	t.extOwner["matchesF"] = "iface.Matches"
+	t.extOwner["relationTargetF"] = "assert.RelationFilter"
+	for _, n := range []string{"cacheEntry", "Cache", "CachedFilter"} {
+		t.structs[n] = true
+	}
 	t.needExt = map[string][]string{}
 	t.opaque = map[string]bool{}
 	t.structs["componentRegistry"] = true
@@ -1025,7 +1465,7 @@ func genPools(repo string, tiny bool) (string, []string) {
 			fmt.Fprintf(&sb, "def MaskTotalBits : Nat := %s\n\n", k.Val().ExactString())
 		}
 	}
-	for _, s := range []string{"Entity", "entityPool", "bitPool", "lockMask", "componentRegistry", "Resources", "bitSet", "idMap"} {
+	for _, s := range []string{"Entity", "entityPool", "bitPool", "lockMask", "componentRegistry", "Resources", "bitSet", "idMap", "intPool", "pointers", "CachedFilter", "cacheEntry", "Cache"} {
 		t.emitStruct(&sb, s)
 	}
 	funcs := []string{
@@ -1036,8 +1476,11 @@ func genPools(repo string, tiny bool) (string, []string) {
 		"Resources.Add", "Resources.Remove", "Resources.Get", "Resources.Has", "Resources.reset",
 		"bitSet.Get", "bitSet.Set", "bitSet.Reset", "bitSet.ExtendTo",
 		"newIDMap", "idMap.Get", "idMap.Set", "idMap.Remove",
+		"newIntPool", "intPool.getNew", "intPool.Get", "intPool.Recycle", "intPool.Reset",
+		"pointers.Get", "pointers.Add", "pointers.RemoveAt", "pointers.Len",
 		"newComponentRegistry", "componentRegistry.ComponentType", "componentRegistry.Count", "componentRegistry.registerComponent",
 		"componentRegistry.ComponentID", "componentRegistry.unregisterLastComponent",
+		"Cache.Register", "Cache.Unregister", "Cache.mapArchetypes", "Cache.addArchetype", "Cache.removeArchetype",
 	}
 	// which functions need the uninterpreted-function parameters (directly or through a callee)
 	calls := map[string][]string{}
@@ -1070,6 +1513,21 @@ func genPools(repo string, tiny bool) (string, []string) {
 			return true
 		})
 	}
+	// pass 1: which uninterpreted-function parameters does each body mention?
+	nerr := len(t.errs)
+	for _, f := range funcs {
+		var tmp strings.Builder
+		t.emitFunc(&tmp, f)
+		if direct[f] == nil {
+			direct[f] = map[string]bool{}
+		}
+		for ext := range t.extOwner {
+			if strings.Contains(tmp.String(), ext) {
+				direct[f][ext] = true
+			}
+		}
+	}
+	t.errs = t.errs[:nerr]
 	for changed := true; changed; {
 		changed = false
 		for _, f := range funcs {
